@@ -256,6 +256,10 @@ class Model:
     def loop_invariant(self, ex, st, node, ordinal):
         return None
 
+    def listcomp(self, ex, st, node):
+        """-> list of Paths for a list comprehension, or NotImplemented"""
+        return NotImplemented
+
     def native_ok(self, f):
         return False
 
@@ -427,6 +431,12 @@ class Executor:
         if isinstance(v, PyConst) and isinstance(v.obj, str):
             return z3.StringVal(v.obj)
         raise Unsupported(f"str() of {v!r}")
+
+    def ev_ListComp(self, st, e):
+        r = self.model.listcomp(self, st, e)
+        if r is NotImplemented:
+            raise Unsupported("list comprehension without a model")
+        return r
 
     def ev_IfExp(self, st, e):
         out = []
@@ -773,6 +783,12 @@ class Executor:
     def st_Pass(self, st, s):
         return [Path(st)]
 
+    def st_ImportFrom(self, st, s):
+        # imported names are resolved by the Model (name hook) or the target's namespace when they are used
+        return [Path(st)]
+
+    st_Import = st_ImportFrom
+
     def st_Global(self, st, s):
         st.frame.globals_decl.update(s.names)
         return [Path(st)]
@@ -1051,6 +1067,41 @@ class Executor:
                     out += self.run_block(q.st, s.orelse)
                 else:
                     out.append(q)
+        return out
+
+
+class LoopInv:
+    """An inductive loop invariant for a `while` loop.
+    inv(ex, st) -> z3 Bool: the invariant in state st (over the current values of the loop's variables);
+    havoc(ex, st) -> None: replace every variable the loop may modify by a fresh symbolic value in st.
+    Obligations: holds on entry; preserved by every path through the body that reaches the loop head again.  The code
+    after the loop (and every return/raise/break out of the body) is executed from an arbitrary state satisfying the
+    invariant, so it is verified for every number of iterations."""
+
+    def __init__(self, name, inv, havoc):
+        self.name, self.inv, self.havoc = name, inv, havoc
+
+    def run(self, ex, st, node):
+        ex.oblige(f"{self.name}: holds on entry", st, self.inv(ex, st))
+        s = st.fork()
+        self.havoc(ex, s)
+        s.pc.append(self.inv(ex, s))
+        out = []
+        for p in ex.ev(s, node.test):
+            if p.kind != "normal":
+                out.append(p)
+                continue
+            for s2, val in ex.branch(p.st, ex.as_bool(p.st, p.val)):
+                if not val:
+                    out += ex.run_block(s2, node.orelse) if node.orelse else [Path(s2)]
+                    continue
+                for b in ex.run_block(s2, node.body):
+                    if b.kind in ("normal", "continue"):
+                        ex.oblige(f"{self.name}: preserved by the loop body", b.st, self.inv(ex, b.st))
+                    elif b.kind == "break":
+                        out.append(Path(b.st))
+                    else:
+                        out.append(b)
         return out
 
 
